@@ -10,7 +10,9 @@ Record mcase := mkMC {
   mc_oracle : list bool;               (* recorded is_facet_inwards results, call order *)
   mc_calls : list nat;                 (* number of remaining faces at each call *)
   mc_mask : list bool;                 (* get_inwards_mask *)
-  mc_fixed : list face                 (* fix_trimesh_orientation *)
+  mc_fixed : list face;                (* fix_trimesh_orientation (TriangularMesh.faces when the class was built) *)
+  mc_status_open : bool;               (* TriangularMesh.status_open after check_open *)
+  mc_status_disc : bool                (* TriangularMesh.status_disconnected after check_disconnected *)
 }.
 
 Definition face_eqb (a b : face) : bool :=
@@ -23,7 +25,8 @@ Fixpoint list_eqb {A} (eqb : A -> A -> bool) (l1 l2 : list A) : bool :=
   | _, _ => false
   end.
 
-(* bit 1: open edges differ, 2: subsets differ, 4: oracle calls differ, 8: mask differs, 16: fixed faces differ *)
+(* bit 1: open edges differ, 2: subsets differ, 4: oracle calls differ, 8: mask differs, 16: fixed faces differ,
+   32: status_open differs, 64: status_disconnected differs *)
 Definition check_mcase (c : mcase) : Z :=
   let fs := mc_faces c in
   let st := pfinal fs (mc_oracle c) in
@@ -32,7 +35,9 @@ Definition check_mcase (c : mcase) : Z :=
    + (if list_eqb Nat.eqb (map snd (rev (p_calls st))) (mc_calls c)
          && Nat.eqb (length (p_oracle st)) 0 then 0 else 4)
    + (if list_eqb Bool.eqb (p_mask st) (mc_mask c) then 0 else 8)
-   + (if list_eqb face_eqb (apply_mask fs (p_mask st)) (mc_fixed c) then 0 else 16))%Z.
+   + (if list_eqb face_eqb (apply_mask fs (p_mask st)) (mc_fixed c) then 0 else 16)
+   + (if Bool.eqb (status_open fs) (mc_status_open c) then 0 else 32)
+   + (if Bool.eqb (status_disconnected fs) (mc_status_disc c) then 0 else 64))%Z.
 
 (* failing cases as [index; code; index; code; ...] *)
 Fixpoint failing_from (i : Z) (cs : list mcase) : list Z :=
